@@ -206,7 +206,10 @@ where
                 pos: Self::DATA_OFFSET,
             });
         }
-        for (i, x) in unsafe { this.data().get_unchecked(..this.len()) }.iter().enumerate() {
+        // All elements of a zero-sized type are the same (empty) bytes: one check covers them all,
+        // and the number of checks stays bounded by the number of bytes given.
+        let count = if T::SIZE == 0 { this.len().min(1) } else { this.len() };
+        for (i, x) in unsafe { this.data().get_unchecked(..count) }.iter().enumerate() {
             unsafe { T::validate_ptr(x.as_ptr()) }.map_err(|e| e.offset(Self::DATA_OFFSET + i * T::SIZE))?;
         }
         Ok(())
